@@ -218,8 +218,20 @@ impl Memory<'_> {
                     let relative_end = std::cmp::min(region.length, end - region.start);
 
                     let fetched_region = fragmented.obj.fetch(&fragmented.params)?;
-                    cb(&fetched_region.mem[relative_start..relative_end]);
+                    // The fetched data can be shorter than the described region, for example
+                    // when the region is bigger than the maximum fetched size. Bytes past the
+                    // fetched data are not available.
+                    let fetched_len = fetched_region.mem.len();
+                    if relative_start >= fetched_len {
+                        break;
+                    }
+                    let available_end = std::cmp::min(relative_end, fetched_len);
+                    cb(&fetched_region.mem[relative_start..available_end]);
                     has_called_cb = true;
+                    if available_end < relative_end {
+                        // The rest of the range is not available.
+                        break;
+                    }
 
                     // Update the starting offset for the next region.
                     start = region.start.checked_add(region.length)?;
